@@ -76,8 +76,11 @@ class ValidationError(Exception):
                 self.children, key=lambda key: (key.__class__.__name__, str(key))
             )
         for child_key in child_keys:
+            # keys of the input which are neither str nor int (bytes, tuple, ...) would
+            # make `errors` not JSON serializable
+            loc = child_key if isinstance(child_key, (str, int)) else str(child_key)
             for path, error in self.children[child_key]._errors():
-                yield [child_key, *path], error
+                yield [loc, *path], error
 
     @property
     def errors(self) -> List[LocalizedError]:
